@@ -36,7 +36,7 @@ const rlUsers = 4 // users u1..u4; u0 is present with password 1 in every well-f
 
 type rlVersion struct {
 	kind  int         // 0 good, 1 malformed, 2 empty
-	shape int         // which malformed shape (htpasswd): 0 wrong field count, 1 last entry with an unsupported hash, 2 bare quote, 3 one-field record first
+	shape int         // which malformed shape (htpasswd): 0 wrong field count, 1 last entry with an unsupported hash, 2 bare quote, 3 one-field record first, 4 FIRST entry with an unsupported hash, 5 such an entry in the middle
 	users map[int]int // user → password id (htpasswd) / 1 (e-mail list)
 }
 
@@ -83,7 +83,15 @@ func (t *rlHt) render(v rlVersion) string {
 	if v.kind == 1 && v.shape == 3 {
 		sb.WriteString("justauser\n")
 	}
+	if v.kind == 1 && v.shape == 4 {
+		// the unusable entry comes FIRST and valid records follow it (regression check for fix 8c0cf03: only an
+		// unusable LAST entry used to be reported; such a version was loaded as a partial map)
+		sb.WriteString("admin:plaintext\n")
+	}
 	for u := 0; u <= rlUsers; u++ {
+		if v.kind == 1 && v.shape == 5 && u == 2 {
+			sb.WriteString("admin:plaintext\n")
+		}
 		if p, ok := v.users[u]; ok && v.kind != 2 {
 			if u == 1 {
 				// bcrypt entries: a validation takes milliseconds, so validations really are in flight across reloads
@@ -100,7 +108,7 @@ func (t *rlHt) render(v rlVersion) string {
 			sb.WriteString("admin:plaintext\n")
 		case 2:
 			sb.WriteString("qu\"ote:{SHA}W6ph5Mm5Pz8GgiULbPgzG37mj9g=\n")
-		case 3:
+		case 3, 4, 5:
 		default:
 			sb.WriteString("broken:record:here\n")
 		}
@@ -211,7 +219,7 @@ func rlGen(r *rng, forceGood bool, pwRange int) rlVersion {
 	}
 	if !forceGood && k == 1 {
 		v.kind = 1
-		v.shape = r.intn(4)
+		v.shape = r.intn(6)
 	}
 	return v
 }
